@@ -56,6 +56,11 @@ add("C01", "differential testing of generated programs against a reference inter
     "The reference interpreter (harness/fer) is the trusted definition of the core semantics; constructs the documentation leaves open are never generated (division by zero, MIN/-1, out-of-range casts, aliasing of dynamic arrays). Recorded known findings (QBE rega assertion, QBE copy-pass hang on self-assignment in loops, closures created in nested blocks) are excluded by construction or suppressed by their specific key.",
     "DESIGN.md §4 C01")
 
+add("C02", "differential testing of the two back ends on generated programs (rapid program generator; node + shipped runtime.js in worker threads)",
+    "Generated programs within the subset both targets accept (plus probing features and a float scenario) are compiled for native and wasm; the executable and the module (instantiated with the shipped JS runtime, fresh per module) must print the same sequence of values and terminate the same way. Float tokens are compared numerically. Exploration.",
+    "Cases rejected by either target or whose module does not instantiate are outside the property and counted as discards. Native float printing uses %g-style rounding, hence a relative tolerance of 1e-5.",
+    "DESIGN.md §4 C02")
+
 def main():
     props = [json.loads(l) for l in open(os.path.join(V, "properties.jsonl"))]
     checks, na = [], []
